@@ -143,7 +143,7 @@ theorem run_writePatchedResult_readonly_backup {s : DState} {p b : Bytes} {m0 : 
     (hdir : s.fs.dirExists (parentOf p) = true)
     (hnot : s.backedUp.contains (backupName o p) = false)
     (hdirs : DirsThere s.fs (backupName o p)) (hbdir : s.fs.dirExists (parentOf (backupName o p)) = true)
-    (hf : s.faultAt = none) :
+    (hnd : NotDir s.fs (backupName o p)) (hf : s.faultAt = none) :
     (writePatchedResult o pt p perm true content).run s =
       (.ok (), { s with backedUp := s.backedUp ++ [backupName o p],
                         fs := ((s.fs.erase p).set (backupName o p) (.file b m0)).set p (.file content m),
@@ -154,7 +154,7 @@ theorem run_writePatchedResult_readonly_backup {s : DState} {p b : Bytes} {m0 : 
     rw [Fs.lookup_set_ne _ _ _ _ hne, Fs.lookup_erase_self]
   unfold writePatchedResult
   simp only [hfmt, hop, Bool.false_eq_true, if_false, Bool.false_and, hnm, if_true]
-  rw [run_bind, run_makeBackupFor_file o hcwd h hnot hdirs hbdir hf]
+  rw [run_bind, run_makeBackupFor_file o hcwd h hnot hdirs hbdir hnd hf]
   simp only []
   rw [run_bind, run_makeWritable_gone perm (by exact hcwd) (by exact hgone)]
   simp only []
@@ -207,7 +207,7 @@ theorem run_refuseToPatch_new {s : DState} (o : Options) (p : Bytes) (pt : Patch
   simp only []
   rw [run_bind, run_ensureParentDirs_there hrne (by exact hcwd) (by exact hdirs) (by exact hf)]
   simp only []
-  have hw := run_writeRejects_new (s := { s with
+  have hw := run_writeRejects_new o (s := { s with
       out := s.out ++ [DEv.refusing] ++ [DEv.failed pt.hunks.length pt.hunks.length true (some (p ++ str ".rej"))]
       opCount := s.opCount + (dirPrefixes (p ++ str ".rej")).length }) (rej := p ++ str ".rej") b hcwd hnot hfree hdir hf
   unfold writeRejects at hw
@@ -364,13 +364,14 @@ theorem processSection_readonly (H : VSection o fmt s p bytes m patch0 patch2 pa
 
 /-- **a clean section over a READ-ONLY target with `-b`, real run**: the target gets the rendered output and has its old mode
     again; the backup holds the old bytes WITH THE OLD MODE `m` (the file is moved before `make_writable` runs, which then finds
-    nothing to make writable: no `chmod` before the write) -/
+    nothing to make writable: no `chmod` before the write); `hnd`: the backup name is not that of a directory -/
 theorem processSection_readonly_backup (H : VSection o fmt s p bytes m patch0 patch2 patch3 info par1 par2 r)
     (hro : m &&& writeMask = 0) (hnf : o.readOnly ≠ .fail)
     (hfail : r.failed = 0) (hmsgs : r.msgs = [])
     (hb : o.saveBackup = true) (hreal : o.dryRun = false) (hdir : s.fs.dirExists (parentOf p) = true)
     (hnot : s.backedUp.contains (backupName o p) = false)
-    (hdirs : DirsThere s.fs (backupName o p)) (hbdir : s.fs.dirExists (parentOf (backupName o p)) = true) :
+    (hdirs : DirsThere s.fs (backupName o p)) (hbdir : s.fs.dirExists (parentOf (backupName o p)) = true)
+    (hnd : NotDir s.fs (backupName o p)) :
     ∃ s', (processSection o fmt).run s = (.ok true, s') ∧
       s'.fs = ((s.fs.erase p).set (backupName o p) (.file bytes m)).set p
                 (.file (render o.newlineOutput r.out) m) ∧
@@ -382,7 +383,7 @@ theorem processSection_readonly_backup (H : VSection o fmt s p bytes m patch0 pa
   have hnf' : (o.readOnly == ReadOnlyHandling.fail) = false := by
     cases hx : o.readOnly <;> first | rfl | exact absurd hx hnf
   v_run [(fun s' => @run_fixPermissions_readonly o s' p bytes m), hro, hnf', hfail, hmsgs, hb, hreal,
-    (fun s' pt c perm => @run_writePatchedResult_readonly_backup s' p bytes m o pt c m perm), hdir, hnot, hdirs, hbdir,
+    (fun s' pt c perm => @run_writePatchedResult_readonly_backup s' p bytes m o pt c m perm), hdir, hnot, hdirs, hbdir, hnd,
     H.pathNe]
   refine ⟨_, rfl, rfl, ?_, rfl, rfl, ?_, ⟨rfl, rfl, rfl, ?_, H.cwd.symm, H.noFault.symm, rfl, rfl, rfl, rfl⟩⟩
   · simp [List.append_assoc]
@@ -473,7 +474,7 @@ theorem processSection_vrejected (H : VSection o fmt s p bytes m patch0 patch2 p
   v_run [(fun s' => @run_fixPermissions_writable o s' p bytes m), hw, hfb, hfe, hsb, hnb, hreal, ↓run_failNow,
     rejectPath_default o p hrf,
     (fun s' => @run_ensureParentDirs_there s' (p ++ str ".rej") hrne), hdirs,
-    (fun s' b => @run_writeRejects_new s' (p ++ str ".rej") b), hnot, hfree, hrdir,
+    (fun s' b => @run_writeRejects_new o s' (p ++ str ".rej") b), hnot, hfree, hrdir,
     (fun s' pt c perm => @run_writePatchedResult_plain s' p bytes m o pt c m perm), hlk, hde, Section.Fs.isRoot_set]
   refine ⟨_, rfl, rfl, ?_, rfl, rfl, rfl, ?_, ⟨rfl, rfl, rfl, ?_, H.cwd.symm, H.noFault.symm, rfl, rfl, rfl, rfl⟩⟩
   · simp [List.append_assoc]
